@@ -52,7 +52,7 @@ func c14Docs() []bson.D {
 }
 
 func c14Paths() []string {
-	return []string{"_id", "a", "a.b", "a.bb", "a.b.c", "a.e", "a.zz", "t", "tt", "r", "zz", "_id.tags", "_id.k"}
+	return []string{"_id", "a", "a.b", "a.bb", "a.b.c", "a.e", "a.zz", "t", "tt", "r", "zz", "_id.tags", "_id.k", "t.0", "r.0.x"}
 }
 
 func c14Flags(level int) []interface{} {
@@ -203,6 +203,16 @@ func init() {
 					}
 				}
 			}
+			// paths with a numeric segment (a position in an array, or a field named like one): what such a path selects
+			// is not fixed by the statement; only "projecting never alters the stored document or later results" is checked
+			numeric := false
+			for _, e := range ents {
+				for _, seg := range strings.Split(e.path, ".") {
+					if seg != "" && seg[0] >= '0' && seg[0] <= '9' {
+						numeric = true
+					}
+				}
+			}
 			reps := 1
 			if len(ents) > 1 {
 				reps = 8 // Project merges its entries through a map: several runs cover the iteration orders
@@ -244,6 +254,10 @@ func init() {
 					}
 					if err == nil && rep == 0 {
 						singles[di] = J(canonSorted(got)) // overlays are merged in map order: compared up to field order
+					}
+					if numeric {
+						atomic.AddInt64(&overlapping, 1)
+						continue
 					}
 					if err != nil {
 						if werr == nil && !overlap && !outsideRef {
@@ -317,6 +331,8 @@ func init() {
 						label := fmt.Sprintf("%s with projection %s on %s", kind, J(proj), short(J(doc), 260))
 						if err != nil {
 							r.Violation("write-projection-rejected:"+kind+":"+c14Shape(ents), label+": failed ("+err.Error()+") although FindOne accepts the projection", rp)
+						} else if numeric {
+							// (laws of non-mutation only)
 						} else if kind == "FindOneAndUpdate:after" {
 							if msg := c14Within(got, marked, "", windowed); msg != "" {
 								r.Violation("write-projection-result:"+kind+":"+c14Shape(ents), label+": returned "+J(got)+": "+msg, rp)
@@ -368,6 +384,9 @@ func init() {
 					}
 					bad := false
 					for i := range got {
+						if numeric {
+							break
+						}
 						if J(canonSorted(got[i])) != singles[i] {
 							r.Violation("list:"+c14Shape(ents), fmt.Sprintf("Find({}) with projection %s: document %d of the list comes back as %s, projected on its own it is %s", J(proj), i, J(got[i]), singles[i]), map[string]interface{}{"projection": J(proj), "position": i})
 							bad = true
